@@ -413,6 +413,25 @@ Proof.
   destruct (H8 eq_refl) as (F1&F2&F3&F4). lia.
 Qed.
 
+(* The builder's own flight account _flight_bytes additionally contains the datagram-level padding of Initial-carrying
+   datagrams (bytes on the wire that belong to no packet and that the recovery never sees): it obeys the same bound, and
+   it dominates the in-flight bytes of the packets of the flushed datagrams. *)
+Theorem flight_wire_le_budget :
+  forall (c : cfg) (mf pn : Z) (ops : list op),
+    c_max_flight c = Some mf -> wf_cfg c -> crypto_fits c ->
+    fl_disciplined c (init_st c pn) ops = true ->
+    let s := fst (run c (init_st c pn) ops) in
+    0 <= b_flight s <= Z.max 0 mf /\
+    (b_dginit s = true ->
+     fl_sum (snd (run_pk c (init_st c pn) ops)) + fl_sum (b_pkts s) <= b_flight s).
+Proof.
+  intros c mf pn ops Hmf Hwf Hfit HD. cbv zeta.
+  pose proof (run_finv c mf Hmf Hwf Hfit ops 0 (init_st c pn) (init_finv c mf pn) HD) as HI.
+  rewrite run_pk_state in HI.
+  destruct HI as (H0&H1&H2&H3&H4&H5&H6&H7&H8&H9). simpl in H9.
+  split; [lia|]. intros DI. rewrite DI in H9. rewrite <- run_pk_state. rewrite <- run_pk_state in H9. lia.
+Qed.
+
 (* ---------- why each flight clause of the discipline is there ---------- *)
 Definition fl_cfg (mf : Z) : cfg := mkCfg false 1200 8 8 0 (Some mf) None (Some 1500).
 
